@@ -129,6 +129,21 @@ def sends_overlap(case, recs):
     intervals.sort()
     return any(a2 < b1 for (a1, b1), (a2, b2) in zip(intervals, intervals[1:]))
 
+def consumer_inside_a_send(case, recs):
+    """some access of a stream-driving thread falls between the first access and the return of a send"""
+    progs = case.meta["progs"]
+    consumers = {t for t, p in enumerate(progs) if any(n in ("drive", "poll") for n, a in p)}
+    open_ = set()
+    for r in recs:
+        if r[0] == "acc":
+            t = r[1]
+            if t in consumers:
+                if open_ and r[3] != 11: return True         # (a parked look at `notified` is not a consume step)
+            else: open_.add(t)
+        elif r[0] == "ret" and r[1] not in consumers:
+            open_.discard(r[1])
+    return False
+
 def oracle_lost_wakeup(case, recs):
     """C04: at the end of the run everything is quiescent, no cancel happened, an accepted event is still pending and every
     stream is parked un-notified"""
@@ -143,8 +158,11 @@ def oracle_lost_wakeup(case, recs):
     if ok - yl > 0 and sorted(parked) == list(range(k)) and sorted(driven) == list(range(k)):
         cls = None
         if case.meta["chan"] in ("move_atomic", "zc_atomic"):
+            # the lock-free ring channel decides whom to wake from a length sampled at slot reservation: its lost wake-ups are the
+            # known family F1 / F13 whenever that sample can be stale, i.e. another thread acted inside some send
             if k >= 2: cls = "C04.ring.multi_consumer"
             elif sends_overlap(case, recs): cls = "C04.ring.overlapping_sends"
+            elif consumer_inside_a_send(case, recs) or k < case.meta["M"]: cls = "C04.ring.stale_length_sample"
         return [(cls, "lost wake-up: %d accepted event(s) pending, all producers returned, every stream parked and not notified" % (ok - yl))]
     return []
 
